@@ -4,14 +4,20 @@ Contract (from the statement): everything `Dumper` writes to its output stream i
 character and no other control character except tab, newline and carriage return — apart from the styling sequences the
 dumper adds itself.  Flow fields are arbitrary strings / bytes (nothing is assumed about attacker-controlled fields), so
 the obligation at every echo site is a sanitisation obligation: every non-constant fragment of the echoed text must be a
-number, a formatted socket address or the result of an escaping function.  It is stated semantically (`Clean(output)`
-as a regular-language membership over the symbolic output text), so a missing escape yields a concrete counter-model
-(a field value containing ESC) that replays on the real Dumper.
+number, a formatted socket address or the result of an escaping function.  It is stated semantically — `Clean(text)` is a
+regular-language membership over the symbolic text handed to `Dumper.echo` — so a missing escape yields a concrete
+counter-model (a field value containing ESC) that replays on the real Dumper.
+
+Modular structure (callee contracts are proved in their own scenario and used as summaries at the call sites):
+  escape_control_characters : result Clean, same length, identity on Clean text            (real source, str.translate model)
+  Dumper.style              : result is the text, or click.style(text) when styling applies (real source)
+  Dumper.echo               : requires Clean(text); writes exactly one line; Clean(text) => Clean(written)   (real source)
+  every function that calls echo: each text handed to echo is Clean                        (real source; echo/style summarised)
 
 Two readings of "control character" are kept apart:
-  * Clean    = no C0 control other than \\t \\n \\r, no DEL             (includes ESC, BEL, NUL, CSI introducer ESC [)
-  * CleanC1  = additionally no C1 control U+0080..U+009F (8-bit CSI U+009B ...) — a separate obligation on the escaping
-               function itself (`escape_control_characters.result.no_c1`), reported separately (reading-dependent).
+  * Clean    = no C0 control other than \\t \\n \\r, no DEL             (includes ESC, BEL, NUL, the CSI introducer ESC [)
+  * no C1    = additionally no C1 control U+0080..U+009F (8-bit CSI U+009B ...) — a separate obligation on the escaping
+               function itself (`escape_control_characters/result.no_c1`), reported separately (reading-dependent).
 """
 from pyvc.api import *
 from props.prelude import *
@@ -25,14 +31,15 @@ BAD = [c for c in range(32) if c not in (9, 10, 13)] + [127]
 C1 = list(range(0x80, 0xA0))
 
 ASSUMPTIONS = [
-    "strutils.bytes_to_escaped_str is summarised in the echo-site scenarios by its contract `result is printable ASCII (plus \\t\\n\\r when keep_spacing)`; that contract is repr()+re.sub behaviour and is checked exhaustively on small scopes in T2 here and in C51, not proved",
-    "dumper.indent (str.strip/splitlines/join) is summarised by `every character of the result is a character of the text, a space or a newline`; checked exhaustively on short strings in T2",
-    "human.format_address(addr) is summarised by `Clean(host) => Clean(result)`; socket addresses (client peername from getpeername(), server address) hold an IP literal or a validated host name, i.e. a Clean host (see the final report for the SOCKS5 caveat; T2 check dumper.clean.server_address)",
-    "contentviews.prettify_message returns Clean text (that is C50's contract, proved there for the wrapper) and mitmproxy_rs.syntax_highlight.highlight returns chunks whose concatenation is its input text (Rust; T2 checks the real one)",
-    "Request/Response.http_version is Clean: the HTTP/1 reader only accepts ^HTTP/\\d\\.\\d$ (raise_if_http_version_unknown; T2 check http1.version_validated) and the HTTP/2 and HTTP/3 layers set a constant",
-    "contrib.click.style(text, ...) = SGR prefix + text + SGR reset (the dumper's own styling, exempt by the statement); in T1 with styling on it is abstracted to Clean markers around the text, T2 strips exactly the sequences click.style emits",
-    "mitmproxy.ctx.options is the options object built by the scenario; the flow/message objects are attribute bags holding arbitrary strings in every attacker-controlled field",
-    "DNS op-code / type / response-code names (mitmproxy.net.dns.*.to_str) are constants or NAME(number) for an int",
+    "strutils.bytes_to_escaped_str is summarised at the echo sites by its contract `result is printable ASCII (plus \\t\\n\\r when keep_spacing)`; that is repr()+re.sub behaviour, checked exhaustively on small scopes in T2 here (b2e.printable_ascii) and in C51, not proved",
+    "dumper.indent (str.strip/splitlines/join) is summarised in the Dumper.echo scenario by `every character of the result is a character of the text, a space or a newline`; checked exhaustively on short strings in T2 (indent.char_subset)",
+    "human.format_address(addr) is summarised by `Clean(host) => Clean(result)` (T2 format_address.clean); socket addresses (client peername from getpeername(), server address) are taken to hold an IP literal or a validated host name, i.e. a Clean host — the accepted fragment class `formatted socket address` of the contract. T2 check dumper.clean.server_address shows where that does not hold (SOCKS5 destination names, KF-C49-7)",
+    "human.pretty_size(int) is printable ASCII (T2 pretty_size.ascii)",
+    "contentviews.prettify_message returns Clean text (C50's contract, proved there for the wrapper) and mitmproxy_rs.syntax_highlight.highlight returns chunks whose concatenation is its input text (Rust; T2 highlight.concat on the real one); in T1 it is modelled as a split of the text into two chunks at an arbitrary position with arbitrary tags",
+    "Request/Response.http_version is Clean: the HTTP/1 reader only accepts ^HTTP/\\d\\.\\d$ (raise_if_http_version_unknown; T2 http1.version_validated) and the HTTP/2 and HTTP/3 layers set a constant",
+    "contrib.click.style(text, ...) = SGR prefix + text + SGR reset (the dumper's own styling, exempt by the statement; T2 click.style.shape); in T1 it is abstracted to Clean markers around the text",
+    "mitmproxy.ctx.options is the options object built by the scenario; flows/messages/connections are attribute bags holding arbitrary strings/bytes in every attacker-controlled field (no relation between fields is assumed)",
+    "QUIC stream ids in flow.metadata (quic_stream_id_client/server) are ints set by the QUIC layer or absent",
 ]
 
 
@@ -83,7 +90,6 @@ def no_c1(s):
 
 
 def printable_ascii(s, keep_spacing=False):
-    bad = [c for c in range(0x2FFFF + 1) if not (0x20 <= c <= 0x7E or (keep_spacing and c in (9, 10, 13)))] if False else None
     if isinstance(s, SStr):
         from pyvc.libx_ui import all_in
         return SBool(all_in(s.t, [(0x20, 0x7E)] + ([(9, 10), (13, 13)] if keep_spacing else [])))
@@ -95,11 +101,10 @@ def printable_ascii(s, keep_spacing=False):
 
 from mitmproxy.addons import dumper as _dumper
 from mitmproxy.utils import human as _human, strutils as _strutils
-from mitmproxy.contrib import click as _click
 
 # the real functions, kept in a dict (module-level aliases would be patched together with the originals by vc.summary)
 _ORIG = {"indent": _dumper.indent, "format_address": _human.format_address, "b2e": _strutils.bytes_to_escaped_str,
-         "pretty_size": _human.pretty_size}
+         "pretty_size": _human.pretty_size, "echo": _dumper.Dumper.echo, "style": _dumper.Dumper.style}
 
 STYLE_OPEN, STYLE_CLOSE = "⟪", "⟫"
 
@@ -118,21 +123,43 @@ def _assume(v, cond):
     v.ex.assume(cond)
 
 
-def install_env(vc, styled):
-    def indent_model(v, n, text):
+def indent_model(v, n, text):
+    if v.mode == "native":
+        return _ORIG["indent"](n, text)
+    r = _uf_str(v, "indent", n, text)
+    _assume(v, Implies(clean(text), clean(r)))
+    _assume(v, Implies(no_c1(text), no_c1(r)))
+    return r
+
+
+def click_style_model(v, text, **style):
+    return STYLE_OPEN + text + STYLE_CLOSE
+
+
+def install_env(vc):
+    """Summaries used at the echo sites. Returns the list that receives every text handed to Dumper.echo."""
+    echoed = []
+
+    def echo_model(v, self_, text, ident=None, **style):
+        # Dumper.echo's contract (scenario Dumper.echo): requires Clean(text) — recorded here, demanded by the site scenario
+        echoed.append(text)
         if v.mode == "native":
-            return _ORIG["indent"](n, text)
-        r = _uf_str(v, "indent", n, text)
-        _assume(v, Implies(clean(text), clean(r)))
-        _assume(v, Implies(no_c1(text), no_c1(r)))
-        return r
+            _ORIG["echo"](self_, text, ident, **style)
+        return None
+
+    def style_model(v, self_, text, **style):
+        # Dumper.style's contract (scenario Dumper.style): the text itself or the text inside the dumper's own styling
+        if v.mode == "native":
+            return _ORIG["style"](self_, text, **style)
+        b = v.fresh_bool("styled")
+        return If(b, lift(STYLE_OPEN) + lift(text) + lift(STYLE_CLOSE), lift(text))
 
     def format_address_model(v, addr):
         if v.mode == "native":
             return _ORIG["format_address"](addr)
         addr = v.resolve(addr)
         if isnone(addr):
-            return "<no address>"
+            return lift("<no address>")
         host, port = addr[0], addr[1]
         r = _uf_str(v, "format_address", host, port)
         _assume(v, Implies(clean(host), clean(r)))
@@ -152,15 +179,12 @@ def install_env(vc, styled):
         _assume(v, printable_ascii(r))
         return r
 
-    def style_model(v, text, **style):
-        return STYLE_OPEN + text + STYLE_CLOSE
-
-    vc.summary("mitmproxy.addons.dumper:indent", indent_model)
+    vc.summary(D + ".echo", echo_model)
+    vc.summary(D + ".style", style_model)
     vc.summary("mitmproxy.utils.human:format_address", format_address_model)
     vc.summary("mitmproxy.utils.human:pretty_size", pretty_size_model)
     vc.summary(SU + "bytes_to_escaped_str", b2e_model)
-    if styled:
-        vc.summary("mitmproxy.contrib.click:style", style_model)
+    return echoed
 
 
 def set_ctx_options(vc, **kw):
@@ -168,7 +192,7 @@ def set_ctx_options(vc, **kw):
     mctx.options = mk_options(vc, **kw)
 
 
-def mk_dumper(vc, styled):
+def mk_dumper(vc, styled=False):
     out = vc.new("props.C49:Out", chunks=vc.list([]), flushed=False)
     d = vc.new(D, filter=None, outfp=out, out_has_vt_codes=styled)
     return d, out
@@ -187,6 +211,17 @@ def sock_addr(vc, name):
     host = vc.sym_str(name + "_host")
     vc.assume(clean(host))
     return (host, vc.sym_int(name + "_port", lo=0, hi=65535))
+
+
+def all_clean(vc, echoed, tag="echo"):
+    """the sanitisation obligation: every text handed to echo is Clean"""
+    for i, t in enumerate(echoed):
+        vc.ensure(f"{tag}[{i}].clean", clean(t))
+
+
+def conj(conds):
+    conds = list(conds)
+    return And(*conds) if len(conds) > 1 else (conds[0] if conds else True)
 
 
 # =====================================================================================================================
@@ -212,7 +247,25 @@ def s_escape(vc):
 
 
 # =====================================================================================================================
-# echo itself: what reaches the stream is the text (indented / styled), so Clean(text) at the call sites is what counts
+# style and echo themselves
+
+
+@scenario("Dumper.style", functions=[D + ".style"])
+def s_style(vc):
+    styled = vc.case("out_has_vt_codes", [False, True])
+    kw = vc.case("style_kw", [{}, dict(fg="red", bold=True), dict(dim=True)])
+    vc.summary("mitmproxy.contrib.click:style", click_style_model)
+    d, out = mk_dumper(vc, styled)
+    text = vc.sym_str("text")
+    o = vc.call(D + ".style", d, text, **kw)
+    vc.ensure("no_exception", o.ok)
+    if not o.ok:
+        return
+    if styled and kw:
+        vc.ensure("styled.text_inside_own_styling", o.result == STYLE_OPEN + text + STYLE_CLOSE)
+    else:
+        vc.ensure("unstyled.identity", o.result == text)
+    vc.ensure("nothing_written", len(out.chunks.items if vc.mode == "sym" else out.chunks) == 0)
 
 
 @scenario("Dumper.echo", functions=[D + ".echo", D + ".style"])
@@ -220,7 +273,8 @@ def s_echo(vc):
     styled = vc.case("styled", [False, True])
     ident = vc.case("ident", [None, 4])
     with_style = vc.case("style_kw", [False, True])
-    install_env(vc, styled)
+    vc.summary("mitmproxy.addons.dumper:indent", indent_model)
+    vc.summary("mitmproxy.contrib.click:style", click_style_model)
     d, out = mk_dumper(vc, styled)
     text = vc.sym_str("text")
     o = vc.call(D + ".echo", d, text, ident, **(dict(fg="red", bold=True) if with_style else {}))
@@ -229,6 +283,7 @@ def s_echo(vc):
         return
     written = output_of(vc, out)
     vc.ensure("clean_text_gives_clean_output", Implies(clean(text), clean(written)))
+    vc.ensure("no_c1_text_gives_no_c1_output", Implies(no_c1(text), no_c1(written)))
     chunks = out.chunks.items if vc.mode == "sym" else out.chunks
     vc.ensure("one_line_written", len(chunks) == 2 and vc.eq(chunks[1], "\n"))
     if ident is None and not (styled and with_style):
@@ -236,7 +291,7 @@ def s_echo(vc):
 
 
 # =====================================================================================================================
-# echo sites
+# echo sites: HTTP
 
 
 def mk_headers(vc, name, n=2):
@@ -246,24 +301,21 @@ def mk_headers(vc, name, n=2):
 
 @scenario("_echo_headers/_echo_trailers", functions=[D + "._echo_headers", D + "._echo_trailers"])
 def s_headers(vc):
-    styled = vc.case("styled", [False, True])
     which = vc.case("function", ["_echo_headers", "_echo_trailers", "_echo_trailers(None)"])
-    install_env(vc, styled)
-    d, out = mk_dumper(vc, styled)
+    echoed = install_env(vc)
+    d, out = mk_dumper(vc)
     h = mk_headers(vc, "h")
     if which == "_echo_headers":
         o = vc.call(D + "._echo_headers", d, h)
     else:
-        # Headers.__bool__/__len__ stand-in: the bag is truthy
         o = vc.call(D + "._echo_trailers", d, None if which.endswith("(None)") else h)
     vc.ensure("no_exception", o.ok)
     if not o.ok:
         return
-    written = output_of(vc, out)
-    vc.ensure("output.clean", clean(written))
-    vc.ensure("output.no_c1", no_c1(written))
-    chunks = out.chunks.items if vc.mode == "sym" else out.chunks
-    vc.ensure("one_line_per_field", len(chunks) == {"_echo_headers": 4, "_echo_trailers": 6, "_echo_trailers(None)": 0}[which])
+    vc.ensure("one_echo_per_field", len(echoed) == {"_echo_headers": 2, "_echo_trailers": 3, "_echo_trailers(None)": 0}[which])
+    all_clean(vc, echoed)
+    for i, t in enumerate(echoed):
+        vc.ensure(f"echo[{i}].no_c1", no_c1(t))
 
 
 def mk_http_flow(vc, with_response, with_error=False, n_headers=1):
@@ -271,15 +323,15 @@ def mk_http_flow(vc, with_response, with_error=False, n_headers=1):
     ver = vc.sym_str("req_version")
     vc.assume(clean(ver))
     req = vc.new(O, method=vc.sym_str("method"), url=vc.sym_str("url"), pretty_url=vc.sym_str("pretty_url"), path=vc.sym_str("path"),
-                 http_version=ver, is_http10=vc.sym_bool("req_is_http10"), is_http11=vc.sym_bool("req_is_http11"),
+                 http_version=ver, is_http10=False, is_http11=vc.sym_bool("req_is_http11"),
                  headers=mk_headers(vc, "req_h", n_headers), trailers=None, raw_content=b"")
     resp = None
     if with_response:
         rver = vc.sym_str("resp_version")
         vc.assume(clean(rver))
         resp = vc.new(O, status_code=vc.sym_int("status_code"), reason=vc.sym_str("reason"), http_version=rver,
-                      is_http10=vc.sym_bool("resp_is_http10"), is_http11=vc.sym_bool("resp_is_http11"),
-                      is_http2=vc.sym_bool("resp_is_http2"), is_http3=vc.sym_bool("resp_is_http3"),
+                      is_http10=False, is_http11=vc.sym_bool("resp_is_http11"),
+                      is_http2=vc.sym_bool("resp_is_http2"), is_http3=False,
                       raw_content=vc.opt("raw_content", vc.sym_bytes("raw_content_v")),
                       headers=mk_headers(vc, "resp_h", n_headers), trailers=None)
     err = vc.new("mitmproxy.flow:Error", msg=vc.sym_str("error_msg"), timestamp=1.0) if with_error else None
@@ -294,18 +346,29 @@ def term_size(vc):
     vc.summary("shutil:get_terminal_size", lambda v, *a, **k: v.lift((cols, 24)))
 
 
-@scenario("_echo_request_line", functions=[D + "._echo_request_line", D + "._fmt_client"])
+@scenario("_fmt_client", functions=[D + "._fmt_client"])
+def s_fmt_client(vc):
+    replay = vc.case("is_replay", [None, "request", "response"])
+    has_peer = vc.case("has_peername", [True, False])
+    install_env(vc)
+    d, out = mk_dumper(vc)
+    f = vc.new(O, is_replay=replay, client_conn=vc.new(O, peername=sock_addr(vc, "peer") if has_peer else None))
+    o = vc.call(D + "._fmt_client", d, f)
+    vc.ensure("no_exception", o.ok)
+    if o.ok:
+        vc.ensure("result.clean", clean(o.result))
+
+
+@scenario("_echo_request_line", functions=[D + "._echo_request_line", D + "._fmt_client"], z3_timeout_ms=1500)
 def s_request_line(vc):
-    styled = vc.case("styled", [False, True])
     replay = vc.case("is_replay", [None, "request"])
     pushed = vc.case("pushed", [False, True])
     detail = vc.case("flow_detail", [1, 2])
-    showhost = vc.case("showhost", [False, True])
     with_response = vc.case("with_response", [False, True])
-    install_env(vc, styled)
+    echoed = install_env(vc)
     term_size(vc)
-    set_ctx_options(vc, flow_detail=detail, showhost=showhost)
-    d, out = mk_dumper(vc, styled)
+    set_ctx_options(vc, flow_detail=detail, showhost=vc.sym_bool("showhost"))
+    d, out = mk_dumper(vc)
     f = mk_http_flow(vc, with_response)
     f.is_replay = replay
     if pushed:
@@ -314,21 +377,218 @@ def s_request_line(vc):
     vc.ensure("no_exception", o.ok)
     if not o.ok:
         return
-    vc.ensure("output.clean", clean(output_of(vc, out)))
+    vc.ensure("one_echo", len(echoed) == 1)
+    all_clean(vc, echoed)
 
 
-@scenario("_echo_response_line", functions=[D + "._echo_response_line"])
+@scenario("_echo_response_line", functions=[D + "._echo_response_line"], z3_timeout_ms=1500)
 def s_response_line(vc):
-    styled = vc.case("styled", [False, True])
     replay = vc.case("is_replay", [None, "response"])
     detail = vc.case("flow_detail", [1, 2])
-    install_env(vc, styled)
+    echoed = install_env(vc)
     set_ctx_options(vc, flow_detail=detail)
-    d, out = mk_dumper(vc, styled)
+    d, out = mk_dumper(vc)
     f = mk_http_flow(vc, True)
     f.is_replay = replay
     o = vc.call(D + "._echo_response_line", d, f)
     vc.ensure("no_exception", o.ok)
     if not o.ok:
         return
-    vc.ensure("output.clean", clean(output_of(vc, out)))
+    vc.ensure("one_echo", len(echoed) == 1)
+    all_clean(vc, echoed)
+
+
+def install_content(vc):
+    """prettify_message (C50's contract: Clean text) and the Rust highlighter (chunks concatenate to the text)."""
+    text = vc.sym_str("pretty_text")
+    vc.assume(clean(text))
+    k = vc.sym_int("chunk_cut", lo=0)
+    tag1 = vc.case("tag1", ["name", "error", ""])
+    pretty = vc.new(O, text=text, syntax_highlight="yaml", view_name="Raw", description="")
+    vc.summary("mitmproxy.contentviews:prettify_message", lambda v, message, flow, view_name="auto", registry=None: pretty)
+    vc.summary("mitmproxy_rs.syntax_highlight:highlight", lambda v, t, lang: v.lift([(tag1, t[:k]), ("string", t[k:])]))
+    return text
+
+
+@scenario("_echo_message", functions=[D + "._echo_message", SU + "cut_after_n_lines"], max_unroll=3, z3_timeout_ms=1500)
+def s_message(vc):
+    detail = vc.case("flow_detail", [3, 4, 1])
+    echoed = install_env(vc)
+    text = install_content(vc)
+    set_ctx_options(vc, flow_detail=detail, dumper_default_contentview="auto", content_view_lines_cutoff=2)
+    d, out = mk_dumper(vc)
+    msg = vc.new(O, content=vc.sym_bytes("content"))
+    o = vc.call(D + "._echo_message", d, msg, vc.new(O))
+    vc.ensure("no_exception", o.ok)
+    if not o.ok:
+        return
+    all_clean(vc, echoed)
+    vc.ensure("content_echoed_iff_non_empty", Iff(len_(text) > 0, len(echoed) >= 2))
+
+
+@scenario("echo_flow", functions=[D + ".echo_flow", D + "._echo_request_line", D + "._echo_response_line", D + "._echo_headers",
+                                  D + "._echo_trailers", D + "._echo_message", D + "._fmt_client"], max_unroll=3, z3_timeout_ms=1500)
+def s_echo_flow(vc):
+    shape = vc.case("shape", ["request+response", "request+error", "request+response+error"])
+    detail = vc.case("flow_detail", [1, 2, 3])
+    echoed = install_env(vc)
+    term_size(vc)
+    install_content(vc)
+    set_ctx_options(vc, flow_detail=detail, showhost=False, dumper_default_contentview="auto", content_view_lines_cutoff=2)
+    d, out = mk_dumper(vc)
+    f = mk_http_flow(vc, "response" in shape, "error" in shape)
+    if "response" in shape:
+        f.response.trailers = mk_headers(vc, "trailer", 1)
+    o = vc.call(D + ".echo_flow", d, f)
+    vc.ensure("no_exception", o.ok)
+    if not o.ok:
+        return
+    all_clean(vc, echoed)
+    vc.ensure("echoes_something", len(echoed) >= 2)
+    vc.ensure("flushed", vc.eq(out.flushed, True))
+
+
+# =====================================================================================================================
+# echo sites: WebSocket
+
+
+def mk_ws_flow(vc, close_code=None):
+    from wsproto.frame_protocol import Opcode
+    mtype = vc.case("message_type", [Opcode.TEXT, Opcode.BINARY])
+    msg = vc.new(O, from_client=vc.sym_bool("from_client"), type=mtype, content=vc.sym_bytes("content"))
+    ws = vc.new(O, messages=vc.list([msg]), close_code=close_code, close_reason=vc.sym_str("close_reason"),
+                closed_by_client=vc.sym_bool("closed_by_client"))
+    f = mk_http_flow(vc, True)
+    f.websocket = ws
+    return f, ws, msg
+
+
+@scenario("websocket_message", functions=[D + ".websocket_message", D + ".match"], z3_timeout_ms=1500)
+def s_ws_message(vc):
+    detail = vc.case("flow_detail", [1, 0])
+    echoed = install_env(vc)
+    set_ctx_options(vc, flow_detail=detail)
+    d, out = mk_dumper(vc)
+    f, ws, msg = mk_ws_flow(vc)
+    o = vc.call(D + ".websocket_message", d, f)
+    vc.ensure("no_exception", o.ok)
+    if not o.ok:
+        return
+    vc.ensure("echo_iff_detail", len(echoed) == (1 if detail else 0))
+    for i, t in enumerate(echoed):
+        vc.ensure_kf(f"echo[{i}].clean", clean(t), "KF-C49-2", Not(clean(f.request.path)))
+
+
+@scenario("websocket_end/format_websocket_error", functions=[D + ".websocket_end", D + ".format_websocket_error", D + ".match"], z3_timeout_ms=1500)
+def s_ws_end(vc):
+    echoed = install_env(vc)
+    set_ctx_options(vc, flow_detail=1)
+    d, out = mk_dumper(vc)
+    code = vc.sym_int("close_code", lo=0, hi=4999)
+    f, ws, msg = mk_ws_flow(vc, code)
+    o = vc.call(D + ".websocket_end", d, f)
+    vc.ensure("no_exception", o.ok)
+    if not o.ok:
+        return
+    vc.ensure("one_echo", len(echoed) == 1)
+    for i, t in enumerate(echoed):
+        vc.ensure_kf(f"echo[{i}].clean", clean(t), "KF-C49-1", Not(clean(ws.close_reason)))
+
+
+# =====================================================================================================================
+# echo sites: TCP / UDP
+
+
+def mk_proto_flow(vc, kind, quic):
+    msg = vc.new(O, from_client=vc.sym_bool("from_client"), content=vc.sym_bytes("content"))
+    md = []
+    if quic:
+        md = [("quic_stream_id_client", vc.sym_int("sid_c", lo=0)), ("quic_stream_id_server", vc.sym_int("sid_s", lo=0))]
+    err = vc.new("mitmproxy.flow:Error", msg=vc.sym_str("error_msg"), timestamp=1.0)
+    return vc.new(O, type=kind, messages=vc.list([msg]), error=err, metadata=vc.dict(md),
+                  client_conn=vc.new(O, peername=sock_addr(vc, "peer"), tls_version="QUICv1" if quic else None),
+                  server_conn=vc.new(O, address=vc.opt("server_address", sock_addr(vc, "server"))))
+
+
+@scenario("_proto_message", functions=[D + "._proto_message", D + ".tcp_message", D + ".udp_message", D + ".match"], z3_timeout_ms=1500)
+def s_proto_message(vc):
+    kind = vc.case("type", ["tcp", "udp"])
+    quic = vc.case("quic", [False, True, "no-metadata"])
+    echoed = install_env(vc)
+    set_ctx_options(vc, flow_detail=1)
+    d, out = mk_dumper(vc)
+    f = mk_proto_flow(vc, kind, bool(quic))
+    if quic == "no-metadata":
+        f.metadata = vc.dict([])
+    o = vc.call(D + "." + kind + "_message", d, f)
+    vc.ensure("no_exception", o.ok)
+    if not o.ok:
+        return
+    vc.ensure("one_echo", len(echoed) == 1)
+    all_clean(vc, echoed)
+
+
+@scenario("_proto_error", functions=[D + "._proto_error", D + ".tcp_error", D + ".udp_error", D + ".match"], z3_timeout_ms=1500)
+def s_proto_error(vc):
+    kind = vc.case("type", ["tcp", "udp"])
+    echoed = install_env(vc)
+    set_ctx_options(vc, flow_detail=1)
+    d, out = mk_dumper(vc)
+    f = mk_proto_flow(vc, kind, False)
+    o = vc.call(D + "." + kind + "_error", d, f)
+    vc.ensure("no_exception", o.ok)
+    if not o.ok:
+        return
+    vc.ensure("one_echo", len(echoed) == 1)
+    for i, t in enumerate(echoed):
+        vc.ensure_kf(f"echo[{i}].clean", clean(t), "KF-C49-3", Not(clean(f.error.msg)))
+
+
+# =====================================================================================================================
+# echo sites: DNS
+
+
+def mk_dns_flow(vc, n_answers):
+    qtype = vc.case("qtype", [1, 28, 16, 65280])
+    q = vc.new(O, name=vc.sym_str("qname"), type=qtype, class_=1)
+    req = vc.new(O, op_code=vc.sym_int("op_code", lo=0, hi=15), questions=vc.list([q]))
+    answers = [vc.new("props.C49:RR", text=vc.sym_str(f"answer{i}")) for i in range(n_answers)]
+    resp = vc.new(O, answers=vc.list(answers), response_code=vc.sym_int("rcode", lo=0, hi=4095))
+    err = vc.new("mitmproxy.flow:Error", msg=vc.sym_str("error_msg"), timestamp=1.0)
+    f = vc.new(O, request=req, response=resp, error=err, is_replay=None, client_conn=vc.new(O, peername=sock_addr(vc, "peer")), type="dns")
+    return f, q, answers
+
+
+@scenario("dns_response/_echo_dns_query", functions=[D + ".dns_response", D + "._echo_dns_query", D + "._fmt_client", D + ".match"], z3_timeout_ms=1500)
+def s_dns_response(vc):
+    n = vc.case("answers", [0, 1, 2])
+    echoed = install_env(vc)
+    set_ctx_options(vc, flow_detail=1)
+    d, out = mk_dumper(vc)
+    f, q, answers = mk_dns_flow(vc, n)
+    o = vc.call(D + ".dns_response", d, f)
+    vc.ensure("no_exception", o.ok)
+    if not o.ok:
+        return
+    vc.ensure("two_echoes", len(echoed) == 2)
+    if len(echoed) != 2:
+        return
+    vc.ensure_kf("query_line.clean", clean(echoed[0]), "KF-C49-4", Not(clean(q.name)))
+    vc.ensure_kf("answer_line.clean", clean(echoed[1]), "KF-C49-5", Not(conj(clean(a.text) for a in answers)))
+
+
+@scenario("dns_error", functions=[D + ".dns_error", D + "._echo_dns_query", D + "._fmt_client", D + ".match"], z3_timeout_ms=1500)
+def s_dns_error(vc):
+    echoed = install_env(vc)
+    set_ctx_options(vc, flow_detail=1)
+    d, out = mk_dumper(vc)
+    f, q, answers = mk_dns_flow(vc, 0)
+    o = vc.call(D + ".dns_error", d, f)
+    vc.ensure("no_exception", o.ok)
+    if not o.ok:
+        return
+    vc.ensure("two_echoes", len(echoed) == 2)
+    if len(echoed) != 2:
+        return
+    vc.ensure_kf("query_line.clean", clean(echoed[0]), "KF-C49-4", Not(clean(q.name)))
+    vc.ensure("error_line.clean", clean(echoed[1]))
